@@ -33,7 +33,7 @@ def hx(s):
 
 
 # ------------------------------------------------------------------ builds
-WRAPS = "malloc mmap mremap munmap open fstat fopen fwrite fclose".split()
+WRAPS = "malloc mmap mremap munmap open fstat fopen fwrite fclose read close calloc realloc mprotect write fread fflush pread lseek rename ftruncate".split()
 SAN = ["-fsanitize=address,undefined", "-fno-sanitize-recover=all", "-fno-omit-frame-pointer"]
 FLAVOURS = {
     # name: (compiler, cflags, extra sources, ldflags)
